@@ -459,6 +459,24 @@ def run(ctx):
                     ctx.violation('ellipsis-directive', {
                         'what': 'a want that begins with the wildcard and %r: passed=%r, by construction %r' % (ws, passed, want_pass), 'doctest': '\n'.join(lines),
                         'got': out, 'want': '...' + ws + tail, 'expected_pass': want_pass, 'theorem_or_correspondence': 'C06 on DocTest.run, want beginning with the wildcard'}, True)
+    # a want whose FIRST line is the bare wildcard, below a one-line statement; an earlier statement of the same run of source lines is
+    # written with continuation lines (the bare '...' belongs to the want: it does not continue a statement that is complete)
+    for pre in ([], ['>>> if True:', '...     x = 1'], ['>>> y = [1,', '...      2]', '>>> z = 3'], ['>>> def f():', '...     return 1', '...', '>>> f()', '1']):
+        for out, tail, exp in (('junk\\nb', ['b'], True), ('junk\\nmore\\nb', ['b'], True), ('junk\\nc', ['b'], False), ('b', ['b'], True)):
+            for sign in ('+', '-'):
+                lines = ['>>> # xdoctest: %sELLIPSIS' % sign] + pre + [">>> print('%s')" % out, '...'] + tail
+                ex = doctest_example.DocTest(docsrc='\n'.join(lines), lineno=1)
+                with contextlib.redirect_stdout(io.StringIO()):
+                    try:
+                        passed = bool(ex.run(verbose=0, on_error='return')['passed'])
+                    except BaseException as e:      # noqa
+                        passed = 'raised %s' % type(e).__name__
+                ne2e += 1
+                want_pass = exp and sign == '+'
+                if passed != want_pass:
+                    ctx.violation('ellipsis-directive', {
+                        'what': 'a want whose first line is the bare wildcard: passed=%r, by construction %r' % (passed, want_pass), 'doctest': '\n'.join(lines),
+                        'got': out, 'want': '...\n' + '\n'.join(tail), 'expected_pass': want_pass, 'theorem_or_correspondence': 'C06 on DocTest.run, want beginning with a bare wildcard line'}, True)
     # the want of an expected exception: '...' is the same wildcard in its final line, in the message as in the type name, whichever
     # other leniency is switched on next to it
     for extra in ('', ', +IGNORE_EXCEPTION_DETAIL', ', +NORMALIZE_WHITESPACE', ', +NORMALIZE_REPR'):
